@@ -27,19 +27,35 @@ PRE4 = {
     "C14H": "non-positive filter thresholds with a non-zero shift were added to the fused operation's cases",
     "C15G": "first reported `no-failing-input-found`: only the first of the two consecutive count calls of a record was checked exactly; now both are",
     "C17G": "a leak on the error path is invisible to every later call: the child now carries a counting allocator sampled around each call (quick tier, no sanitizer needed)"}
+R5 = {
+    "C02I": "missed: the map form's `inc_str` on a bare symbol that is already a key, right after `fmass` on the same register, was not generated (string-keyed "
+            "increments now follow a cache fill on a recently written key)",
+    "C02J": "missed: `Clone::clone_from` (as opposed to `clone`) was not an operation of the register machine's alphabet; the harness now performs `OClone` through "
+            "`clone_from` onto a target whose cache is filled",
+    "C09I": "missed, then (with the BRAIN source tie) `no-failing-input-found` naming `constants_update`: one generator object asked for n and then n+2 peaks of the same "
+            "elements; the long-lived generator had already seen a huge request.  A generator fresh for every composition now sees the ladder 3,5,7,9,10,4 first",
+    "C10I": "missed: a default / signal-fraction request whose resolved count differs between the neutral and the ion mass needs a composition within a few Da of a Poisson "
+            "count boundary (26, 157, 423, 814 ... Da); such compositions were added",
+    "C17I": "missed: no formula argument surrounded by white space among the byte strings (now: leading / trailing space, tab, CR LF)",
+    "C07I": "`no-failing-input-found` at first: the ordering clause of the specification evaluator (carbon, hydrogen, then alphabetical) was only applied to compositions "
+            "containing plain carbon; it is now applied to all, and compositions without carbon but with hydrogen and a symbol below H are generated",
+    "C08J": "`no-failing-input-found` at first (the syntactic obligation saw the new `Atomic*`): the 16 threads' results are now also compared with a single-threaded "
+            "run of the same requests, which yields the failing request",
+    "C15J": "`no-failing-input-found` at first: the count for threshold exactly 1.0 was only tied to the model, not judged by the specification evaluator; it now is "
+            "(t = 1: the loop must run to the 255 cap or to the first non-finite term)"}
 ids = sorted(d for d in os.listdir(S) if re.match(r"^C\d\d[A-Z]$", d))
 rows, caught = [], 0
 for i in ids:
     m = json.load(open(os.path.join(S, i, "meta.json")))
     r = json.load(open(os.path.join(S, i, "result.json")))
-    rnd = {"A": 1, "B": 1, "C": 2, "D": 2, "E": 3, "F": 3, "G": 4, "H": 4}[i[-1]]
+    rnd = {"A": 1, "B": 1, "C": 2, "D": 2, "E": 3, "F": 3, "G": 4, "H": 4, "I": 5, "J": 5}[i[-1]]
     for chk, v in r.items():
         ok = v["exit"] == 1 and "VIOLATION" in v["verdict"]
         caught += ok
         clip = lambda t: re.sub(r"\s+", " ", str(t)).replace("|", "/")[:140]
         rows.append("| %s | %d | %s | %s | %s | %s | %s |" % (i, rnd, chk, "caught" if ok else "MISSED", v.get("replay_kind", ""), clip(m.get("breaks", "")), clip(m.get("needs_to_manifest", ""))))
 out = ["# Seeded breaking changes", "",
-       "Four rounds of fresh sub-agents (one property text and a scratch worktree each, nothing from /verif) wrote %d changes that break a property while the crate "
+       "Five rounds of fresh sub-agents (one property text and a scratch worktree each, nothing from /verif) wrote %d changes that break a property while the crate "
        "compiles and the 41 pinned tests pass. Each was confirmed here (suite passes with it; its demonstration fails with it and passes without) before being kept: "
        "`patch.diff`, the demonstration, `meta.json` (the author's description plus our confirmation) and `result.json` (the verdict of `tools/run_seeded.py <id>`: "
        "apply to /repo, run the quick check, revert)." % len(ids), "",
@@ -50,6 +66,9 @@ out += ["", "Round 4 (`..G`, `..H`): all 34 were reported on the first run, 32 w
         "This round is not a blind measurement: the authors' reports were read before the checks were run, and where a report named something the generators "
         "visibly lacked it was added first:", ""]
 out += ["* `%s` — %s" % (k, v) for k, v in PRE4.items()]
+out += ["", "Round 5 (`..I`, `..J`; a blind round again: nothing was read before the first run): 26 of 34 caught with a failing input on the first run, 3 reported as "
+        "`no-failing-input-found`, 5 missed:", ""]
+out += ["* `%s` — %s" % (k, v) for k, v in R5.items()]
 out += ["", "After those additions all %d of %d are caught by the current checks (last full run of all patches: see the `result.json` files), each with a concrete failing input "
         "in the replay (`replay_kind`)." % (caught, len(rows)), "",
         "| id | round | check | verdict | replay | breaks | needs |", "|----|-------|-------|---------|--------|--------|-------|"] + rows
